@@ -475,3 +475,38 @@ def _op_returns_scaled(op, name: str) -> bool:
     names = [s.id for s in sides if isinstance(s, ast.Name)]
     calls = [s for s in sides if isinstance(s, ast.Call)]
     return names == [name] and len(calls) == 1
+
+
+def no_bypass(ctx) -> None:
+    """Every returning path of the two solver kernels returns tensors derived from krylov_exp's result, and every path
+    of `_evolve` calls exactly one kernel: no shortcut returns the input factors unchanged."""
+    prog = ctx.prog
+    mod = "emu_mps.solver_utils."
+    for fname in ("evolve_pair", "evolve_single"):
+        f = prog.func(mod + fname)
+        it = Interp(prog, None, inline=lambda c, r, d: False)
+        bad = []
+        for p in it.run(f):
+            if p.status != "return":
+                continue
+            if not contains(p.retval, lambda t: t[0] == "call" and t[1] == "emu_base.math.krylov_exp.krylov_exp"):
+                conds = "; ".join(f"{show(c)[:50]}={t}" for c, t in p.cond_log)
+                bad.append(f"[{conds}] returns {show(p.retval)[:60]}")
+        ctx.ob("TDVP", f"{fname} every path exponentiates", f.loc(), not bad,
+               f"every path of {fname} returns the Krylov-exponentiated tensors" if not bad else
+               f"{fname} has a path that returns without exponentiating: {bad[0]}", entry=f.qualname)
+    K = prog.cls(MPS)
+    f = K.methods["_evolve"]
+    it = Interp(prog, K, inline=lambda c, r, d: False)
+    bad = []
+    for p in it.run(f):
+        if p.status != "return":
+            continue
+        n = sum(1 for e in p.events if e.kind == "call" and e.name.startswith(mod + "evolve_"))
+        w = sum(1 for e in p.events if e.kind == "setitem" and "state.factors" in show(e.target[0]))
+        if n != 1 or w != 1:
+            conds = "; ".join(f"{show(c)[:40]}={t}" for c, t in p.cond_log)
+            bad.append(f"[{conds}] kernel calls={n}, factor writes={w}")
+    ctx.ob("TDVP", "_evolve always evolves", f.loc(), not bad,
+           "every path of _evolve calls one solver kernel and writes its result back" if not bad else
+           f"_evolve has a path that does not evolve: {bad[0]}", entry=f.qualname)
